@@ -109,7 +109,8 @@ Definition place_ordered (self : kind) (skip stop after before : list kind)
   else PInsert index.
 
 Definition place (ks : list kind) (k : kind) (index : nat) (inorder : bool) : place_res :=
-  if kind_beq k CHARSET_RULE then
+  if kin k sheet_refused_kinds then PReject      (* `if rule.type == rule.MARGIN_RULE: error; return` before the chain *)
+  else if kind_beq k CHARSET_RULE then
     if inorder then (if headis CHARSET_RULE ks then PUpdateCharset else PInsert 0)
     else if negb (Nat.eqb index 0) || headis CHARSET_RULE ks then PReject
     else PInsert index
@@ -265,7 +266,9 @@ Definition parse_step (rx : bool) (st : pstate) (p : proto) : pstate + exn :=
   match (match parse_threshold k with Some t => Nat.ltb t (p_expected st) | None => false end) with
   | true => if rx then inr HierarchyRequestErr else inl st            (* return expected *)
   | false =>
-    if kind_beq k NAMESPACE_RULE then
+    if kin k parse_discarded_kinds then                                 (* consumed, no rule kept *)
+      inl (mkP (p_rules st) (p_ns st) (next (p_expected st)))
+    else if kind_beq k NAMESPACE_RULE then
       let st1 :=
           match dict_get (p_ns st) (pprefix p) with
           | None =>
@@ -421,7 +424,9 @@ Definition update_at (rs : list rule) (k : nat) (r : rule) : list rule :=
 Definition forbidden_in (container : kind) : list kind :=
   if kind_beq container MEDIA_RULE then media_forbidden_insert else page_forbidden_insert.
 
-Definition container_insert (rx : bool) (c : rule) (src : source) (index : option Z) : rule * result :=
+(* env: the namespaces of the sheet the container belongs to (cssrule.py _prepareInsertRule parses the text with
+   self.parentStyleSheet.namespaces) *)
+Definition container_insert (rx : bool) (env : dict) (c : rule) (src : source) (index : option Z) : rule * result :=
   let len := length (rkids c) in
   match (match index with
          | None => Some len
@@ -432,7 +437,7 @@ Definition container_insert (rx : bool) (c : rule) (src : source) (index : optio
     let parsed : option kind + result :=
         match src with
         | Obj r => inl (Some (rkind r))
-        | Text ps => match parse_sheet rx [] ps with
+        | Text ps => match parse_sheet rx env ps with
                      | inr e => inr (Exc e)
                      | inl (_, Some e) => inr (Exc e)
                      | inl (tmp, None) => match tmp with
@@ -502,7 +507,7 @@ Definition step (rx : bool) (rs : list rule) (o : op) : list rule * result :=
       else
         let '(r', res) :=
             match c with
-            | CIns src index => container_insert rx r src index
+            | CIns src index => container_insert rx (ns_view rs) r src index
             | CDel index => container_delete r index
             | CDelObj i => if Nat.ltb i (length (rkids r)) then container_delete r (Z.of_nat i)
                            else (r, Exc IndexSizeErr)
@@ -543,7 +548,11 @@ Definition kids_ok (r : rule) : bool :=
   else if is_kind PAGE_RULE r then negb (anyk page_forbidden_insert (rkids r))
   else true.
 
-Definition valid_sheet (rs : list rule) : bool := valid_kinds (kinds rs) && forallb kids_ok rs.
+(* no kind the sheet's insertRule refuses outright (a margin rule outside @page) *)
+Definition norefused (ks : list kind) : bool := forallb (fun k => negb (kin k sheet_refused_kinds)) ks.
+
+Definition valid_sheet (rs : list rule) : bool :=
+  valid_kinds (kinds rs) && forallb kids_ok rs && norefused (kinds rs).
 
 (* the kinds-level reading of the parser: the 0..3 `expected` machine plus the index checks that insertRule
    applies to a rule appended at the end *)
@@ -554,6 +563,7 @@ Fixpoint accept_loop (acc : list kind) (expected : nat) (ks : list kind) : list 
     let next := match parse_next k with Some n => n | None => Nat.max 1 expected end in
     if match parse_threshold k with Some t => Nat.ltb t expected | None => false end
     then accept_loop acc expected r
+    else if kin k parse_discarded_kinds then accept_loop acc next r
     else match place acc k (length acc) false with
          | PInsert i => accept_loop (insert_at i k acc) next r
          | _ => accept_loop acc next r
